@@ -115,6 +115,8 @@ def run_filler_check(ctx, PID, impl_oracle, proof_target, select=False):
     # ... and with the value accompanied by entries whose own values are falsy (0, False, "", None, [], 0.0): all of it is the metadata
     sub2 = sub[:ctx.scale(60, 400)]
     per_fmt["fb+falsy"] = (sub2, common.run_impl("filler_run.py", {"cases": sub2, "format": "fb+falsy", "select": select}, timeout=3000)["results"])
+    # ... and with an equal dict whose keys come in the opposite order on every other write (no change of the value, so no roll-over)
+    per_fmt["fb+reorder"] = (sub2, common.run_impl("filler_run.py", {"cases": sub2, "format": "fb+reorder", "select": select}, timeout=3000)["results"])
     # 1. property oracle on the implementation
     found = 0
     for fmt, (sub, rs) in per_fmt.items():
